@@ -114,5 +114,18 @@ static inline InfoSet caps_infoset(const QXmppDiscoveryManager *m)
 /* QXmppClient::findExtension<QXmppDiscoveryManager>(): the installed discovery manager of this client, or nullptr (ASSUMED) */
 QXmppDiscoveryManager *gh_disco;
 static inline QXmppDiscoveryManager *qclient_findDiscoveryManager(qclient c) { MODEL_LIMIT(c == gh_client, "findExtension on another client"); return gh_disco; }
+/* QString::indexOf(ch) / QString::left(n) (ASSUMED, opaque): indexOf is some position or -1; left(n) is SOME prefix of the string
+   (the whole string for n < 0 -- Qt 5 -- , empty for n == 0); which prefix is not known */
+int __CPROVER_uninterpreted_str_indexof(qstr x, quint16 c);
+qstr __CPROVER_uninterpreted_str_left(qstr x, int n);
+static inline int qstr_indexOf(qstr x, quint16 c) { if (x == 0) return -1; int i = __CPROVER_uninterpreted_str_indexof(x, c); __CPROVER_assume(i >= -1); return i; }
+static inline qstr qstr_left(qstr x, int n)
+{
+  if (x == 0 || n == 0) return 0;
+  if (n < 0) return x;
+  qstr r = __CPROVER_uninterpreted_str_left(x, n);
+  __CPROVER_assume(r != 0 && (r == x || __CPROVER_uninterpreted_str_startsWith(x, r)));
+  return r;
+}
 /* handleIq: a query names no node, or a node that starts with the client's capabilities node (node#ver) */
 #define HIQ_NODE_OK(m, q) ((q)->d->queryNode == 0 || qstr_startsWith((q)->d->queryNode, (m)->d->clientCapabilitiesNode))
